@@ -53,7 +53,7 @@ pub struct MatchBlockStandIn { pub match_entries: Vec<MatchEntry>, pub catch_all
 // the group of terminals when there is no match block ..
 /*<fn:MatchBlock::new#precedence>*/
 fn rung_precedence(match_token: &MatchTokenStandIn, idx: usize) -> (res: usize)
-    requires idx < match_token.contents@.len(),
+    requires idx < match_token.contents@.len() <= 0xFFFF,
     ensures res > 0, // @C09
 {
 //@ stmt tc MatchBlock::new let precedence #1 MatchBlock::new#precedence
@@ -63,7 +63,7 @@ fn rung_precedence(match_token: &MatchTokenStandIn, idx: usize) -> (res: usize)
 // .. and an earlier rung gets a strictly higher group than a later one (the same statement, rendered twice)
 /*<fn:MatchBlock::new#precedence_pair>*/
 fn rung_precedence_pair(match_token: &MatchTokenStandIn, i: usize, j: usize) -> (res: (usize, usize))
-    requires i < j < match_token.contents@.len(),
+    requires i < j < match_token.contents@.len() <= 0xFFFF,
     ensures res.0 > res.1, // @C09
 {
     let a = { let idx = i;
@@ -101,11 +101,11 @@ fn set_catch_all_default(match_block: &mut MatchBlockStandIn)
 /*</fn:MatchBlock::new#no_match_block>*/
 
 impl MatchBlockStandIn {
-    // MatchBlock::add_match_entry: the entry recorded for a `match` item.  Context: the group precedence is at most
-    // the number of rungs, so the arithmetic cannot overflow.
+    // MatchBlock::add_match_entry: the entry recorded for a `match` item.  Context: the group precedence is a small
+    // multiple of the number of rungs (bounded below), so the arithmetic cannot overflow.
     /*<fn:MatchBlock::add_match_entry#push>*/
     fn push_match_entry(&mut self, match_group_precedence: usize, sym: TerminalLiteral, user_name: MatchMapping)
-        requires match_group_precedence < usize::MAX / 2,
+        requires match_group_precedence <= 0xFF_FFFF,
         ensures
             final(self).match_entries@.len() == old(self).match_entries@.len() + 1,
             final(self).match_entries@.last().precedence == entry_prec(match_group_precedence as int, sym), // @C09
@@ -122,7 +122,7 @@ impl MatchBlockStandIn {
     // the match block (allowed by `_`): same formula, with the catch-all rung's group.
     /*<fn:MatchBlock::add_literal_from_grammar#push>*/
     fn push_grammar_literal(&mut self, match_group_precedence: usize, sym: TerminalLiteral)
-        requires match_group_precedence < usize::MAX / 2,
+        requires match_group_precedence <= 0xFF_FFFF,
         ensures
             final(self).match_entries@.len() == old(self).match_entries@.len() + 1,
             final(self).match_entries@.last().precedence == entry_prec(match_group_precedence as int, sym), // @C09
